@@ -293,7 +293,7 @@ def loop_reply(world, peer):
         world.inject(raw, peer.addr)
 
 
-R.add('L11.2', l112, lambda tier: [dict(a_state=s, quick=(tier == 'quick')) for s in ('new', 'temp', 'connected')],
+R.add('L11.2', l112, lambda tier: [dict(a_state=s, quick=(tier == 'quick' or s == 'new')) for s in ('new', 'temp', 'connected')],
       desc='real server loop: hostile datagrams from A (unknown / handshaking / connected) while B is an established honest client',
       expect=['hostile datagrams never make an exception leave the server loop',
               'the established client is still served: its message is delivered',
